@@ -458,6 +458,9 @@ Qed.
 Lemma base_wiring_guarded : guarded_wiring base_wiring.
 Proof. intros m; destruct m; simpl; congruence. Qed.
 
+Lemma ext_wiring_guarded : guarded_wiring ext_wiring.
+Proof. intros m; destruct m; simpl; congruence. Qed.
+
 Lemma ng_of_guard w a :
   (w_serr w = EErr -> w_guard w = true) -> w_guard w && is_gerr_val (a_err a) = false ->
   is_gerr_val (eval_e a (w_serr w)) = false.
